@@ -50,10 +50,11 @@ import CnvVerif.Driver.FormatsExt5cSniff
 import CnvVerif.Driver.RangesDualExt5c
 import CnvVerif.Driver.RangesColExt5c
 import CnvVerif.Driver.CallCmdCenterExt5c
+import CnvVerif.Driver.StatsSmallExt5c
 open Lean CnvVerif.Drv
 
 def handlers : List (String → Json → Option Json → R (Option Json)) :=
-  [handleInterval, handleRangesExt, handleCall, handleCallCmd, handleSegFilter, handleSegFilterExt, handleTile, handleCenter, handleSexExt, handleFix, handleAccess, Genes.handleGenes, handleFormats, handleFormatsExt, handleExport, handleExportExt, C20Ci.handleExportCi, Reference.handleReference, handleCoverage, handleCoverageExt, handleEffects, handleEffectsExt, handleBins, handleVcf, handleVcfExt, handleDescriptives, Haar.handleHaar, HaarExt.handleHaarExt, handleStats, handleStatsGlue, handleStatsExt5, handleSegFilterExt5, handleAccessExt5, handleDescLoopExt5, ReferenceExt5.handleReferenceExt5, handleCallWhole, handleCallWrappers, handleCoverageExt5Cols, handleFormatsLabel, handleFixExt5, GeneExt.handleGeneExt, handleRangesExt5, handleEffectsWriters, handleIntervalExt5, handleTileBaf, handleAccessNoneExt5, handleCoverageExt5Glue, handleSmoothIterExt5b, handleFormatsSniffRe, handleC07Dual, handleC07Col, handleCallCmdCenter]
+  [handleInterval, handleRangesExt, handleCall, handleCallCmd, handleSegFilter, handleSegFilterExt, handleTile, handleCenter, handleSexExt, handleFix, handleAccess, Genes.handleGenes, handleFormats, handleFormatsExt, handleExport, handleExportExt, C20Ci.handleExportCi, Reference.handleReference, handleCoverage, handleCoverageExt, handleEffects, handleEffectsExt, handleBins, handleVcf, handleVcfExt, handleDescriptives, Haar.handleHaar, HaarExt.handleHaarExt, handleStats, handleStatsGlue, handleStatsExt5, handleSegFilterExt5, handleAccessExt5, handleDescLoopExt5, ReferenceExt5.handleReferenceExt5, handleCallWhole, handleCallWrappers, handleCoverageExt5Cols, handleFormatsLabel, handleFixExt5, GeneExt.handleGeneExt, handleRangesExt5, handleEffectsWriters, handleIntervalExt5, handleTileBaf, handleAccessNoneExt5, handleCoverageExt5Glue, handleSmoothIterExt5b, handleFormatsSniffRe, handleC07Dual, handleC07Col, handleCallCmdCenter, handleStatsSmall5c]
 def dispatch (op : String) (inp : Json) (impl : Option Json) : R Json := do
   for h in handlers do
     match ← h op inp impl with
